@@ -157,7 +157,10 @@ def load_known():
         for line in open(path):
             line = line.strip()
             if line and not line.startswith("#") and line.startswith("{"):
-                out.append(json.loads(line))
+                k = json.loads(line)
+                out.append(k)
+                for other in k.get("also", []):        # the same defect violates these properties too
+                    out.append(dict(k, property=other))
     return out
 
 
@@ -418,7 +421,8 @@ def check_property(pid, tier, seed):
                                "contradictory": [c for c, _ in bad_canaries]},
             "known_findings_matched": [k.get("what") for k, _ in known_hits],
             "checker_errors": errors,
-            "source_files": {f: file_hash(os.path.join(REPO, f)) for f in sorted({t.split("::")[0] for t in plan["targets"]})},
+            "source_files": {f: file_hash(os.path.join(REPO, f) if not f.startswith("@verif/") else os.path.join(VERIF, f[7:]))
+                             for f in sorted({t.split("::")[0] for t in plan["targets"]})},
             "design_ref": plan.get("design_ref"),
         },
         "assumptions": plan.get("assumptions", []),
